@@ -14,7 +14,7 @@ from lib.vlib import Infra
 from engines import ledger
 
 SPEC = os.path.join(vlib.SPECS, "ledger")
-SIZE = {"quick": (6, 6), "thorough": (150, 10)}   # histories, rounds per history
+SIZE = {"quick": (8, 6), "thorough": (150, 10)}   # histories, rounds per history
 
 
 def run(res, prop, tier, seed, work, replay=None):
